@@ -416,6 +416,17 @@ func (e *execEngine) buildTx(n *node, t []string) (pb.Transaction, bool, error) 
 			b.Signature = sg
 		case "nofrom":
 			b.From = nil
+		case "ethtyp": // declared as signed the Ethereum way, with the BitXHub signature
+			b.Typ = pb.TxType_EthSignedBxhTx
+		case "ethshort": // ... and a signature of the wrong length (the Ethereum decoder wants exactly 66 bytes)
+			b.Typ = pb.TxType_EthSignedBxhTx
+			b.Signature = append([]byte{}, b.Signature[:10]...)
+		case "ethlong":
+			b.Typ = pb.TxType_EthSignedBxhTx
+			b.Signature = append(append([]byte{}, b.Signature...), 1, 2, 3, 4, 5, 6, 7)
+		case "ethone":
+			b.Typ = pb.TxType_EthSignedBxhTx
+			b.Signature = []byte{1}
 		default:
 			return nil, false, fmt.Errorf("bad sig kind")
 		}
